@@ -137,8 +137,23 @@ def introspect():
             reg[k] = {"factory": False, "flatten": fs}
         else:
             reg[k] = {"factory": True, "ctor": _sig_of(v)}
+    # every compiled regular expression reachable from the pp module (globals and closure cells of its functions)
+    import re as _re
+    from mwlib.parser.templ import pp
+    pats = set()
+    for v in vars(pp).values():
+        if isinstance(v, _re.Pattern):
+            pats.add((v.pattern, v.flags))
+        if inspect.isfunction(v) and v.__closure__:
+            for cell in v.__closure__:
+                try:
+                    cv = cell.cell_contents
+                except ValueError:
+                    continue
+                if isinstance(cv, _re.Pattern):
+                    pats.add((cv.pattern, cv.flags))
     return {"public": names, "chains": chains, "registry": sorted(magic_nodes.registry), "registry_info": reg,
-            "file": magics.__file__}
+            "file": magics.__file__, "pp_patterns": sorted([p, f] for p, f in pats)}
 
 
 def run_one(req):
@@ -195,10 +210,28 @@ def _child(reqs, wfd):
     os._exit(0)
 
 
+_TICK = os.sysconf("SC_CLK_TCK")
+
+
+def _cpu_of(pid):
+    """user + system CPU seconds consumed so far by process `pid` (/proc/<pid>/stat fields 14, 15)"""
+    try:
+        with open("/proc/%d/stat" % pid) as f:
+            st = f.read()
+        fields = st[st.rindex(")") + 2:].split()
+        return (int(fields[11]) + int(fields[12])) / _TICK
+    except (OSError, ValueError, IndexError):
+        return None
+
+
 def main():
     """The parent only forks: a child handles the remaining requests and reports one line per request through a
     pipe; if it dies (SIGSEGV in a compiled extension, os._exit, ...) or stays silent for longer than the wall
-    limit, the first unanswered request is reported as "crash"/"timeout" and a new child takes the rest."""
+    limit, the first unanswered request is reported as "crash"/"timeout" and a new child takes the rest.
+    The parent also watches the CPU time of the child (/proc/<pid>/stat): the child's own interval timer only fires
+    between bytecodes, so a single C-level call that does not return (a regular expression that backtracks
+    exponentially, a huge integer power) cannot be interrupted from inside; when the request being worked on has used
+    its CPU limit plus a grace period the child is killed and the request is reported as "timeout"."""
     import select
     reqs = [json.loads(ln) for ln in sys.stdin if ln.strip()]
     i = 0
@@ -214,13 +247,26 @@ def main():
         os.close(wfd)
         buf = b""
         done = 0
-        killed = False
+        killed = None
+        cpu0 = _cpu_of(pid) or 0.0
+        last = time.time()
         while True:
-            ready, _, _ = select.select([rfd], [], [], WALL_LIMIT + 15)
+            ready, _, _ = select.select([rfd], [], [], 0.25)
             if not ready:
-                os.kill(pid, signal.SIGKILL)
-                killed = True
-                break
+                cur = reqs[i + done] if i + done < len(reqs) else {}
+                lim = float(cur.get("cpu_limit") or CPU_LIMIT)
+                used = _cpu_of(pid)
+                if used is not None and used - cpu0 > lim + max(1.0, 0.5 * lim):
+                    os.kill(pid, signal.SIGKILL)
+                    killed = "no result after %.1fs CPU (limit %.1fs) inside one uninterruptible call; worker killed" % (used - cpu0, lim)
+                    kcpu = used - cpu0
+                    break
+                if time.time() - last > WALL_LIMIT + 15:
+                    os.kill(pid, signal.SIGKILL)
+                    killed = "no answer within %.0fs wall; worker killed" % (WALL_LIMIT + 15)
+                    kcpu = WALL_LIMIT
+                    break
+                continue
             chunk = os.read(rfd, 1 << 16)
             if not chunk:
                 break
@@ -229,13 +275,14 @@ def main():
                 line, buf = buf.split(b"\n", 1)
                 _proto.write(line.decode("utf8") + "\n")
                 done += 1
+                cpu0 = _cpu_of(pid) or cpu0
+                last = time.time()
         os.close(rfd)
         _pid, status = os.waitpid(pid, 0)
         i += done
         if i < len(reqs):
             if killed:
-                r = {"id": reqs[i]["id"], "outcome": "timeout", "exc": "no answer within %.0fs wall; worker killed" % (WALL_LIMIT + 15),
-                     "cpu": WALL_LIMIT, "outlen": 0}
+                r = {"id": reqs[i]["id"], "outcome": "timeout", "exc": killed, "cpu": round(kcpu, 3), "outlen": 0, "dispatches": 0}
             elif os.WIFSIGNALED(status):
                 sig = os.WTERMSIG(status)
                 try:
